@@ -2,6 +2,9 @@
 // BMatrix<N, D, Const<O>>: O columns, each a D-vector
 pub struct HM { pub cols: Ghost<Seq<Seq<real>>> }
 impl HM {
+    // BMatrix::from_element_generic(dim, Const<O>, 0): O zero columns of the given dimension
+    #[verifier::external_body]
+    pub fn vx_zeros<D: Dimension>(dim: D, ncols: usize) -> (r: HM) ensures r.cols@.len() == ncols, forall|j: int| 0 <= j < ncols ==> #[trigger] r.cols@[j] == vzero(dim.size()) { unimplemented!() }
     #[verifier::external_body]
     pub fn column(&self, j: usize) -> (r: V) requires j < self.cols@.len() ensures r@ == self.cols@[j as int] { unimplemented!() }
     #[verifier::external_body]
